@@ -13,7 +13,8 @@ package main
 //	… masked=<fields>                    (echo cases) which password fields of the echoed configuration show "***"
 //
 // case line:  <scenario> <loglevel> <fakemode> <sourcepw-hex> <targetpw-hex>
-// fakemode: ok | autherr (AUTH rejected) | mute (never answers) | tgtdown / srcdown (connection refused) | oklong (ok, 12 s)
+// fakemode: ok | autherr (AUTH rejected) | mute (never answers) | tgtdown / srcdown (connection refused) | oklong (ok, 12 s) |
+//           tls (TLS on in the tool, plain-text peers: handshake fails) | tlsdown (TLS on, peers down: dial fails)
 
 import (
 	"bufio"
@@ -55,7 +56,7 @@ func init() {
 
 var c19Scenarios = []string{"echo", "sync", "synccluster", "syncresume", "synctgtcluster", "restore", "rump", "dump", "decode", "supervise"}
 var c19Levels = []string{"none", "error", "warn", "info", "debug"}
-var c19Fakes = []string{"ok", "autherr", "mute", "tgtdown", "srcdown"}
+var c19Fakes = []string{"ok", "autherr", "mute", "tgtdown", "srcdown", "tls", "tlsdown"}
 
 const c19Alnum = "ABCDEFGHIJKLMNOPQRSTUVWXYZabcdefghijklmnopqrstuvwxyz0123456789"
 
@@ -100,6 +101,12 @@ func genC19(g *gen) {
 	emit("sync", "debug", "srcdown", g.r.Intn(5))
 	emit("rump", "info", "tgtdown", g.r.Intn(5))
 	emit("synctgtcluster", "debug", "tgtdown", g.r.Intn(5))
+	// TLS enabled, handshake or dial failing: the error paths of the TLS connect helpers
+	emit("sync", "debug", "tls", g.r.Intn(5))
+	emit("supervise", "debug", "tls", g.r.Intn(5))
+	emit("restore", "info", "tlsdown", g.r.Intn(5))
+	emit("supervise", "error", "tlsdown", g.r.Intn(5))
+	emit("rump", "debug", "tls", g.r.Intn(5))
 	// every log level on the sync path
 	for _, lv := range c19Levels {
 		if lv != "debug" && (g.thorough() || lv == "error" || lv == "info") {
@@ -429,6 +436,12 @@ func c19Child(f []string) {
 	if mode == "srcdown" {
 		src.ln.Close()
 	}
+	// TLS switched on in the tool while the peers speak plain text (handshake fails) or are down (dial fails)
+	tlsOn := mode == "tls" || mode == "tlsdown"
+	if mode == "tlsdown" {
+		tgt.ln.Close()
+		src.ln.Close()
+	}
 	tmp, _ := os.MkdirTemp("", "c19")
 	rdbPath := tmp + "/in.rdb"
 	os.WriteFile(rdbPath, c19RDB(), 0600)
@@ -449,6 +462,8 @@ func c19Child(f []string) {
 	o.TargetAddressList = []string{tgt.addr()}
 	o.TargetPasswordRaw = tpw
 	o.TargetAuthType = "auth"
+	o.SourceTLSEnable = tlsOn
+	o.TargetTLSEnable = tlsOn
 	o.TargetType = conf.RedisTypeStandalone
 	o.TargetDBString = "-1"
 	o.TargetDB = -1
